@@ -123,6 +123,10 @@ fn run_case(rt: &tokio::runtime::Runtime, case: &Case) -> RunResult {
     // ghost, environment side: fetches that were requested and for which no BlockFetched /
     // BlockFetchFailed / removal naming that very (peer, id, hash) has been delivered yet
     let mut in_flight: BTreeSet<(u64, u64, u64)> = BTreeSet::new();
+    // ghost: requests per (peer, id, hash) over the whole run; a lifetime ends only when the
+    // block is reported fetched or removed (an entry that silently disappears and is announced
+    // again must not get a fresh retry budget)
+    let mut requested_total: BTreeMap<(u64, u64, u64), u64> = BTreeMap::new();
     // ghost: (peer, id, hash) announced so far
     let mut announced: BTreeSet<(u64, u64, u64)> = BTreeSet::new();
 
@@ -215,6 +219,33 @@ fn run_case(rt: &tokio::runtime::Runtime, case: &Case) -> RunResult {
             res.oracle_failures
                 .push(format!("op {}: get_stats reports {} peers, {} are tracked", k, stats.len(), snap.len()));
         }
+        // an entry leaves a peer's queue only when its block was reported fetched or removed, or is
+        // already known when the picture is built (entries in status Fetched may be dropped at any
+        // time): a block the node has merely given up on must stay, or a re-announcement would
+        // give it a fresh retry budget
+        for (p, before) in &prev {
+            let now = snap.iter().find(|(pp, _)| pp == p).map(|x| &x.1);
+            for e in before {
+                if e.2 == 2 {
+                    continue;
+                }
+                let still = now.map(|v| v.iter().any(|n| n.0 == e.0 && n.1 == e.1)).unwrap_or(false);
+                if still {
+                    continue;
+                }
+                let explained = match op {
+                    Op::Fetched { hash } | Op::Remove { hash } => *hash == e.1,
+                    Op::Build { known } => known.contains(&e.1),
+                    _ => false,
+                };
+                if !explained {
+                    res.oracle_failures.push(format!(
+                        "op {} ({}): peer {} no longer tracks block ({},{}) (status {}, retries {}) although it was neither reported fetched nor removed",
+                        k, op.gallina(), p, e.0, e.1, e.2, e.3
+                    ));
+                }
+            }
+        }
         // every tracked entry was announced for that peer: by the peer itself, or -- a block wanted
         // from "any peer" (index 0) -- for a peer that has a fetch url. An entry at a peer without
         // url can never be requested and is discarded for ALL peers by the routing layer
@@ -238,7 +269,10 @@ fn run_case(rt: &tokio::runtime::Runtime, case: &Case) -> RunResult {
             }
         }
         match op {
-            Op::Fetched { hash } | Op::Remove { hash } => in_flight.retain(|x| x.2 != *hash),
+            Op::Fetched { hash } | Op::Remove { hash } => {
+                in_flight.retain(|x| x.2 != *hash);
+                requested_total.retain(|x, _| x.2 != *hash);
+            }
             Op::Failed { id, hash, peer } => {
                 in_flight.remove(&(*peer, *id, *hash));
                 // a failure report names one fetch: every other entry stays as it was
@@ -317,6 +351,14 @@ fn run_case(rt: &tokio::runtime::Runtime, case: &Case) -> RunResult {
                             k, p, id, hash
                         )),
                     }
+                    let t = requested_total.entry((*p, *id, *hash)).or_insert(0);
+                    *t += 1;
+                    if *t > 501 {
+                        res.oracle_failures.push(format!(
+                            "op {}: block ({},{}) has been requested from peer {} {} times without being reported fetched or removed in between (retry budget 500)",
+                            k, id, hash, p, t
+                        ));
+                    }
                     if !in_flight.insert((*p, *id, *hash)) {
                         res.oracle_failures.push(format!(
                             "op {}: peer {} is asked for ({},{}) again while the earlier request is still in flight (no fetched / failed report for it was delivered)",
@@ -392,6 +434,9 @@ fn run_case(rt: &tokio::runtime::Runtime, case: &Case) -> RunResult {
         res.trace.push(rows);
         prev = snap;
     }
+    if std::env::var("VERIF_C16_DEBUG").is_ok() && case.kind == "retry-exhaustion" {
+        eprintln!("requested_total {:?} final {:?}", requested_total, prev);
+    }
     res
 }
 
@@ -442,7 +487,8 @@ fn gen_retry_exhaustion(rng: &mut Rng) -> Case {
         Op::Add { hash: 6, id: 3, peer: 1 },
         Op::Build { known: vec![] },
     ];
-    for _ in 0..504 {
+    // a failed entry is re-queued by one round and handed out by the next: 2 rounds per retry
+    for _ in 0..1010 {
         ops.push(Op::Select);
         ops.push(Op::Failed { id: 2, hash: 5, peer: 1 });
         if rng.chance(1, 50) {
@@ -451,6 +497,17 @@ fn gen_retry_exhaustion(rng: &mut Rng) -> Case {
     }
     ops.push(Op::Select);
     ops.push(Op::Select);
+    // after the retry budget of (2,5) is used up: another block of the peer is fetched, the
+    // exhausted block is announced again, and rounds follow -- it must not be requested again
+    ops.push(Op::Select);
+    ops.push(Op::Fetched { hash: 6 });
+    ops.push(Op::Build { known: vec![] });
+    ops.push(Op::Add { hash: 5, id: 2, peer: 1 });
+    ops.push(Op::Build { known: vec![] });
+    for _ in 0..3 {
+        ops.push(Op::Select);
+        ops.push(Op::Failed { id: 2, hash: 5, peer: 1 });
+    }
     Case { batch, url_peers: vec![1, 2], ops, kind: "retry-exhaustion" }
 }
 
@@ -635,6 +692,96 @@ fn routed_failure_cases(rt: &tokio::runtime::Runtime, summary: &mut Summary, fir
     descs
 }
 
+/// A fetch that cannot even be started (the I/O layer answers Err) and is reported failed
+/// afterwards must be retried: the routing layer may drop an entry only when the block is
+/// already known (oracle only).
+fn routed_unstartable_fetch_cases(rt: &tokio::runtime::Runtime, summary: &mut Summary, first_case: usize) -> Vec<String> {
+    let mut descs = vec![];
+    let mut case_no = first_case;
+    for (peer, id, h) in [(1u64, 11u64, 111u64), (4, 3, 34)] {
+        let desc = format!(
+            "{{\"case\":{},\"kind\":\"routed-unstartable-fetch\",\"peer\":{},\"block_id_hash\":[{},{}]}}",
+            case_no, peer, id, h
+        );
+        let outcome = catch_unwind(AssertUnwindSafe(|| {
+            rt.block_on(async {
+                let wallet = Arc::new(RwLock::new(Wallet::new([1u8; 32], [2u8; 33])));
+                let c = Params::default().cfg();
+                let cfg: Arc<RwLock<dyn Configuration + Send + Sync>> = Arc::new(RwLock::new(c));
+                let mut pc = PeerCollection::default();
+                let mut p = Peer::new(peer);
+                p.block_fetch_url = format!("http://peer{}/block/", peer);
+                pc.index_to_peers.insert(peer, p);
+                let peers = Arc::new(RwLock::new(pc));
+                let disk = Arc::new(Mutex::new(Disk::default()));
+                let timer = Timer { time_reader: Arc::new(FixedClock), hasten_multiplier: 1, start_time: 0 };
+                let blockchain = Arc::new(RwLock::new(Blockchain::new(wallet.clone(), 100, 0, 60)));
+                let mempool = Arc::new(RwLock::new(Mempool::new(wallet.clone())));
+                let (tx_cons, _rx_cons) = tokio::sync::mpsc::channel(1000);
+                let (tx_miner, _rx_miner) = tokio::sync::mpsc::channel(1000);
+                let (tx_stat, _rx_stat) = tokio::sync::mpsc::channel(100_000);
+                let (tx_verif, _rx_verif) = tokio::sync::mpsc::channel(1000);
+                let mut routing = RoutingThread {
+                    blockchain_lock: blockchain.clone(),
+                    mempool_lock: mempool.clone(),
+                    sender_to_consensus: tx_cons,
+                    sender_to_miner: tx_miner,
+                    config_lock: cfg.clone(),
+                    timer: timer.clone(),
+                    wallet_lock: wallet.clone(),
+                    network: Network::new(Box::new(MemIo::new(disk.clone())), peers.clone(), wallet.clone(), cfg.clone(), timer.clone()),
+                    storage: Storage::new(Box::new(MemIo::new(disk.clone()))),
+                    reconnection_timer: 0,
+                    peer_removal_timer: 0,
+                    peer_file_write_timer: 0,
+                    last_emitted_block_fetch_count: 0,
+                    stats: RoutingStats::new(tx_stat.clone()),
+                    senders_to_verification: vec![tx_verif],
+                    last_verification_thread_index: 0,
+                    stat_sender: tx_stat.clone(),
+                    blockchain_sync_state: BlockchainSyncState::new(2),
+                };
+                routing.blockchain_sync_state.add_entry(h32(h), id, peer, peers.clone()).await;
+                disk.lock().unwrap().fail_fetches = 1;
+                // a timer round of the routing thread selects the block and asks the I/O layer
+                routing.process_timer_event(std::time::Duration::from_millis(2100)).await;
+                let first = disk.lock().unwrap().fetches.len();
+                // the I/O layer reports the failure
+                routing
+                    .process_network_event(NetworkEvent::BlockFetchFailed { block_hash: h32(h), peer_index: peer, block_id: id })
+                    .await;
+                for _ in 0..3 {
+                    routing.process_timer_event(std::time::Duration::from_millis(2100)).await;
+                }
+                let total = disk.lock().unwrap().fetches.len();
+                let tracked = routing.blockchain_sync_state.verif_snapshot().iter().any(|(p, v)| *p == peer && v.iter().any(|e| e.0 == id && unh(&e.1) == h));
+                (first, total, tracked)
+            })
+        }));
+        summary.count("kind", "routed-unstartable-fetch");
+        match outcome {
+            Err(_) => summary.oracle_failure(case_no, "routing layer panicked in the unstartable-fetch scenario", &desc),
+            Ok((first, total, tracked)) => {
+                if first != 1 {
+                    summary.oracle_failure(case_no, &format!("harness: expected exactly one fetch request in the first round, saw {}", first), &desc);
+                } else if total < 2 || !tracked {
+                    summary.oracle_failure(
+                        case_no,
+                        &format!(
+                            "block ({},{}) whose fetch from peer {} could not be started and was reported failed is never requested again ({} request(s) reached the I/O layer, still tracked: {})",
+                            id, h, peer, total, tracked
+                        ),
+                        &desc,
+                    );
+                }
+            }
+        }
+        descs.push(desc);
+        case_no += 1;
+    }
+    descs
+}
+
 fn main() {
     let args = Args::parse();
     let mut rng = Rng::new(args.seed);
@@ -701,6 +848,12 @@ fn main() {
     // routed venue (oracle only): trivial model cases keep the case numbering aligned
     let routed = routed_failure_cases(&rt, &mut summary, cases.len());
     for d in routed {
+        coq_cases.push("((1, [], []), [])".to_string());
+        summary.case_descs.push(d);
+    }
+    let n_so_far = summary.case_descs.len();
+    let routed2 = routed_unstartable_fetch_cases(&rt, &mut summary, n_so_far);
+    for d in routed2 {
         coq_cases.push("((1, [], []), [])".to_string());
         summary.case_descs.push(d);
     }
